@@ -56,6 +56,27 @@ class CounterModel(object):
                 'stop_by_precheck': self.stop_by_precheck, 'evalmon_midrun': self.evalmon_midrun,
                 'stepmon_midrun': self.stepmon_midrun}
 
+    def before_op(self, h, op):
+        # a collapse applied inside Solve() installs a constraint: from there on a different objective is minimised (a new
+        # epoch for 'best never worsens', exactly like an explicit SetConstraints in mid-run)
+        if op['op'] == 'solve' and h.solvers and not getattr(h.solver, '_c04_wrapped', False):
+            solver = h.solver; orig = solver.Collapse; model = self
+            def Collapse(disp=False):
+                out = orig(disp)
+                if out:
+                    was = h.run.observing; h.run.observing = True
+                    try:
+                        model.epoch_from = len(solver.energy_history) + (1 if h.plan['solver'] == 'Powell' else 0)
+                        model.finalized = True
+                        h.run.probe('c04.collapse_inside_solve')
+                    finally:
+                        h.run.observing = was
+                return out
+            try:
+                solver.Collapse = Collapse; solver._c04_wrapped = True
+            except Exception:
+                pass
+
     # ---- fault-injecting configuration: an I/O error on a LoggingMonitor file ends the user's program
     def check_after_io_fault(self, h, op, res):
         """relaxed narrowly: the exception reached the caller (that is why we are here); the evaluation counter still
